@@ -1202,6 +1202,17 @@ func ruleServerConstruction(p *Prog, r *Out) {
 			return true
 		})
 		last := retResults(fd.Body.List[len(fd.Body.List)-1])
+		// the whole preface is waited for: one Read returns what has arrived
+		full := false
+		ast.Inspect(fd.Body, func(nd ast.Node) bool {
+			if as, isAs := nd.(*ast.AssignStmt); isAs && len(as.Rhs) == 1 {
+				if c, isC := as.Rhs[0].(*ast.CallExpr); isC && p.calleeOf(c) == "io.ReadFull" && len(c.Args) == 2 && squash(p.text(c.Args[1])) == "b[:prefaceLen]" {
+					full = true
+				}
+			}
+			return true
+		})
+		r.check(full, "the preface is read in full, in however many pieces it arrives", p.pos(fd.Pos()), "io.ReadFull(br, b[:prefaceLen])", "ReadPreface no longer waits for all 24 octets (io.ReadFull): a single Read returns what has arrived so far, and a preface split across two segments is taken for a wrong one")
 		r.check(ok && len(last) == 1 && p.text(last[0]) == "false", "preface accepted only when complete and equal", p.pos(fd.Pos()), "err == nil && n == prefaceLen && bytes.Equal(b, preface) -> true; else false", "ReadPreface no longer accepts exactly a complete, byte-equal client connection preface (RFC 7540 s3.5)")
 	} else {
 		r.undecided("ReadPreface", "?", "no longer resolves")
